@@ -21,6 +21,18 @@ struct verif_atomic {
 	T exchange(T v, std::memory_order mo = std::memory_order_seq_cst) { dsched::point(); hb.on_rmw(mo); return a.exchange(v, mo); }
 	T fetch_add(T v, std::memory_order mo = std::memory_order_seq_cst) { dsched::point(); hb.on_rmw(mo); return a.fetch_add(v, mo); }
 	T fetch_sub(T v, std::memory_order mo = std::memory_order_seq_cst) { dsched::point(); hb.on_rmw(mo); return a.fetch_sub(v, mo); }
+	T fetch_or(T v, std::memory_order mo = std::memory_order_seq_cst) { dsched::point(); hb.on_rmw(mo); return a.fetch_or(v, mo); }
+	T fetch_and(T v, std::memory_order mo = std::memory_order_seq_cst) { dsched::point(); hb.on_rmw(mo); return a.fetch_and(v, mo); }
+	T fetch_xor(T v, std::memory_order mo = std::memory_order_seq_cst) { dsched::point(); hb.on_rmw(mo); return a.fetch_xor(v, mo); }
+	T operator++() { return fetch_add(1) + 1; }
+	T operator++(int) { return fetch_add(1); }
+	T operator--() { return fetch_sub(1) - 1; }
+	T operator--(int) { return fetch_sub(1); }
+	T operator+=(T v) { return fetch_add(v) + v; }
+	T operator-=(T v) { return fetch_sub(v) - v; }
+	T operator|=(T v) { return fetch_or(v) | v; }
+	T operator&=(T v) { return fetch_and(v) & v; }
+	bool is_lock_free() const noexcept { return a.is_lock_free(); }
 	bool compare_exchange_weak(T &e, T d, std::memory_order s, std::memory_order f) { dsched::point(); bool ok = a.compare_exchange_strong(e, d, s, f); if(ok) hb.on_rmw(s); else hb.on_load(f); return ok; }
 	bool compare_exchange_strong(T &e, T d, std::memory_order s, std::memory_order f) { dsched::point(); bool ok = a.compare_exchange_strong(e, d, s, f); if(ok) hb.on_rmw(s); else hb.on_load(f); return ok; }
 	bool compare_exchange_weak(T &e, T d, std::memory_order m = std::memory_order_seq_cst) { return compare_exchange_weak(e, d, m, fail_order(m)); }
